@@ -47,10 +47,60 @@ class Profile:
         self.extreme = False           # extreme constants (C05)
         self.asserts_false = True      # allow assertions that may fail
         self.forms_only = False        # file-level programs made of definitions and output statements only (C13)
+        self.templates = True          # parameterised stateful idioms with closed-form output (outer-variable update, deep lexical nesting, fluids)
         self.__dict__.update(kw)
 
 
-ALL_FEATURES = ["func", "overload", "macro", "closure", "gener", "record", "union", "array", "list", "exc", "domain", "recursion", "bigz", "string", "loop", "libops"]
+ALL_FEATURES = ["func", "overload", "macro", "closure", "gener", "record", "union", "array", "list", "exc", "domain", "recursion", "bigz", "string", "loop", "libops", "tmpl"]
+
+
+# --------------------------------------------------------------------------------------------- stateful templates
+# Self-contained idioms whose output is known in closed form from their parameters; they bring in what the expression generator does
+# not: a file-level variable updated by a callee while it is also passed by value, assignments to a variable several lexical levels
+# out, and dynamically bound (fluid) variables. `free v := e` is used throughout (a bare `free v;` statement is known finding C03-K43).
+def L_(v):
+    return "(-(%d@MachineInteger))" % -v if v < 0 else "(%d@MachineInteger)" % v
+
+
+def tmpl_parts(t):
+    """t = (kind, id, params...) -> (top-level lines, statement lines for main, expected '@ ' lines)"""
+    kind, k = t[0], t[1]
+    if kind == "state":
+        g0, d, c = t[2:5]
+        top = ["gs%d: MachineInteger := %s;" % (k, L_(g0)),
+               "bp%d(dd: MachineInteger): MachineInteger == { free gs%d := gs%d + dd; gs%d }" % (k, k, k, k),
+               "us%d(pp: MachineInteger): MachineInteger == { tt: MachineInteger := bp%d(%s); pp + tt * %s }" % (k, k, L_(d), L_(c))]
+        stm = ['prMI("s%d ", us%d(gs%d));' % (k, k, k), 'prMI("g%d ", gs%d);' % (k, k)]
+        return top, stm, ["@ s%d %d" % (k, g0 + (g0 + d) * c), "@ g%d %d" % (k, g0 + d)]
+    if kind == "deepnest":
+        p0, incs = t[2], t[3]
+        D = len(incs)
+        lines = ["dn%d(p: MachineInteger): MachineInteger == {" % k, "\tv: MachineInteger := p;"]
+        v = p0
+        for i, inc in enumerate(incs):
+            ind = "\t" * (i + 1)
+            op = "v * (2@MachineInteger) + %s" % L_(inc) if i % 2 else "v + %s" % L_(inc)
+            v = v * 2 + inc if i % 2 else v + inc
+            lines.append("%sl%d(): () == {" % (ind, i + 1))
+            lines.append("%s\tfree v := %s;" % (ind, op))
+        for i in range(D - 1, -1, -1):
+            ind = "\t" * (i + 1)
+            lines.append("%s}" % ind)
+            lines.append("%sl%d();%s" % (ind, i + 1, " v := v - (1@MachineInteger);" if i > 0 else ""))
+            if i > 0:
+                v -= 1
+        lines += ["\tv", "}"]
+        return lines, ['prMI("d%d ", dn%d(%s));' % (k, k, L_(p0))], ["@ d%d %d" % (k, v)]
+    if kind == "fluid":
+        a, b, c = t[2:5]
+        top = ["fluid fl%d: MachineInteger := %s;" % (k, L_(a)),
+               "rd%d(): MachineInteger == fl%d;" % (k, k),
+               'bn%d(): () == { fluid fl%d := %s; prMI("f%d in ", rd%d()); }' % (k, k, L_(b), k, k),
+               "bt%d(): (MachineInteger, MachineInteger) == { fluid fl%d := %s; (rd%d(), (1@MachineInteger)) }" % (k, k, L_(c), k)]
+        stm = ["bn%d();" % k, 'prMI("f%d after ", rd%d());' % (k, k), "(xf%d: MachineInteger, yf%d: MachineInteger) := bt%d();" % (k, k, k),
+               'prMI("f%d tuple ", xf%d);' % (k, k), 'prMI("f%d after2 ", rd%d());' % (k, k)]
+        return top, stm, ["@ f%d in %d" % (k, b), "@ f%d after %d" % (k, a), "@ f%d tuple %d" % (k, c), "@ f%d after2 %d" % (k, a)]
+    raise ValueError(kind)
 
 
 class G:
@@ -811,6 +861,20 @@ class G:
         ctx = {"func": None, "loop": False, "throwers": False, "filelevel": toplevel}
         self.flat = toplevel
         main = list(self.block(n, 2, [], ctx))
+        tmpls = []
+        if self.has("tmpl") and p.templates and not toplevel:
+            for _ in range(self.int(1, 3)):
+                kind = self.pick(["state", "deepnest", "deepnest"] + ([] if p.java else ["fluid"]))
+                self.n += 1
+                k = self.n
+                if kind == "state":
+                    t = ("state", k, self.int(-50, 2000), self.int(1, 300), self.int(-7, 9))
+                elif kind == "deepnest":
+                    t = ("deepnest", k, self.int(-20, 50), tuple(self.int(-9, 9) for _ in range(self.int(2, 8))))
+                else:
+                    t = ("fluid", k, self.int(-99, 99), self.int(100, 199), self.int(200, 299))
+                tmpls.append(t)
+                main.insert(self.int(0, len(main)), ("tmpl", len(tmpls) - 1))
         # make sure there are a few prints with data
         frame = {}
         for s in main:
@@ -832,7 +896,7 @@ class G:
                 main.insert(pos, ("conderror", self.e_bool(2, []), "halt%d" % self.int(0, 9)))
         decls = {
             "excs": tuple(self.excs), "recs": tuple(self.recs), "unis": tuple(self.unis),
-            "macros": tuple(self.macros), "gens": tuple(self.gens),
+            "macros": tuple(self.macros), "gens": tuple(self.gens), "tmpls": tuple(tmpls),
             "doms": tuple(tuple(sorted(d.items())) for d in self.doms),
             "funcs": tuple(tuple(sorted((k, v) for k, v in f.items() if k != "ready")) for f in self.funcs),
         }
@@ -930,11 +994,12 @@ class Evaluator:
         self.macros = {m[0]: m for m in self.d["macros"]}
         self.gens = {g[0]: g for g in self.d["gens"]}
         self.doms = {x["dom"]: x for x in self.d["doms"]}
+        self.tmpls = self.d.get("tmpls", ())
         self.window = window
         self.out = []
         self.steps = 0
         self.max_steps = max_steps
-        self.stats = {"calls": 0, "closures": 0, "loops": 0, "throws": 0, "caught": 0, "collects": 0, "libops": 0}
+        self.stats = {"calls": 0, "closures": 0, "loops": 0, "throws": 0, "caught": 0, "collects": 0, "libops": 0, "templates": 0}
 
     def tick(self):
         self.steps += 1
@@ -1183,6 +1248,9 @@ class Evaluator:
             env.set(s[1], self.ev(s[3], env))
         elif k == "print":
             self.emit(s[1], self.ev(s[2], env))
+        elif k == "tmpl":
+            self.stats["templates"] += 1
+            self.out += tmpl_parts(self.tmpls[s[1]])[2]
         elif k == "if":
             if self.ev(s[1], env):
                 self.run_block(s[2], env)
@@ -1443,6 +1511,8 @@ class Renderer:
         I = ind
         if k == "raw":
             return [(I, l) for l in s[1]]
+        if k == "tmpl":
+            return [(I, l) for l in tmpl_parts(self.d["tmpls"][s[1]])[1]]
         if k == "decl":
             return [(I, "%s: %s := %s;" % (s[1], self.T(s[2]), self.x(s[3])))]
         if k == "assign":
@@ -1549,6 +1619,8 @@ class Renderer:
     def defs(self):
         L = []
         d = self.d
+        for t in d.get("tmpls", ()):
+            L += [(len(l) - len(l.lstrip("\t")), l.lstrip("\t")) for l in tmpl_parts(t)[0]]
         for g in d["gens"]:
             L += [(0, "%s(%s: MachineInteger): Generator MachineInteger == generate {" % (g[0], g[2])),
                   (1, "%s: MachineInteger := (0@MachineInteger);" % g[1]),
